@@ -41,10 +41,68 @@ func BNot(x *BExpr) *BExpr {
 	}
 	return &BExpr{Op: "not", A: []*BExpr{x}}
 }
-func BAnd(x, y *BExpr) *BExpr { return &BExpr{Op: "and", A: []*BExpr{x, y}} }
-func BOr(x, y *BExpr) *BExpr  { return &BExpr{Op: "or", A: []*BExpr{x, y}} }
-func BXor(x, y *BExpr) *BExpr { return &BExpr{Op: "xor", A: []*BExpr{x, y}} }
+func BAnd(x, y *BExpr) *BExpr {
+	switch {
+	case x.Op == "const":
+		if x.K {
+			return y
+		}
+		return x
+	case y.Op == "const":
+		if y.K {
+			return x
+		}
+		return y
+	}
+	return &BExpr{Op: "and", A: []*BExpr{x, y}}
+}
+func BOr(x, y *BExpr) *BExpr {
+	switch {
+	case x.Op == "const":
+		if x.K {
+			return x
+		}
+		return y
+	case y.Op == "const":
+		if y.K {
+			return y
+		}
+		return x
+	}
+	return &BExpr{Op: "or", A: []*BExpr{x, y}}
+}
+func BXor(x, y *BExpr) *BExpr {
+	switch {
+	case x.Op == "const":
+		if x.K {
+			return BNot(y)
+		}
+		return y
+	case y.Op == "const":
+		if y.K {
+			return BNot(x)
+		}
+		return x
+	}
+	return &BExpr{Op: "xor", A: []*BExpr{x, y}}
+}
 func BIte(c, t, f *BExpr) *BExpr {
+	if c.Op == "const" {
+		if c.K {
+			return t
+		}
+		return f
+	}
+	if t.Op == "const" && f.Op == "const" {
+		switch {
+		case t.K && !f.K:
+			return c
+		case !t.K && f.K:
+			return BNot(c)
+		default:
+			return t
+		}
+	}
 	return &BExpr{Op: "ite", A: []*BExpr{c, t, f}}
 }
 
@@ -813,11 +871,23 @@ func (e *BExpr) Assign(env map[string]bool) *BExpr {
 		}
 		return e
 	}
-	r := &BExpr{Op: e.Op, A: make([]*BExpr, len(e.A))}
-	for i, a := range e.A {
-		r.A[i] = a.Assign(env)
+	a := make([]*BExpr, len(e.A))
+	for i, x := range e.A {
+		a[i] = x.Assign(env)
 	}
-	return r
+	switch e.Op {
+	case "not":
+		return BNot(a[0])
+	case "and":
+		return BAnd(a[0], a[1])
+	case "or":
+		return BOr(a[0], a[1])
+	case "xor":
+		return BXor(a[0], a[1])
+	case "ite":
+		return BIte(a[0], a[1], a[2])
+	}
+	return &BExpr{Op: e.Op, A: a}
 }
 
 
